@@ -169,7 +169,7 @@ theorem lexOne_wrapOpen (X : Str) (k : Nat) : lexOne (k + 1) (wrapOpen ++ X) = s
   have hx : isAlpha 'x' = true := by decide
   have hlow : lower ('x' :: "xxblank".toList) = wrapperName := by decide
   have hraw : isRawText wrapperName = false := wrapper_not_raw
-  simp only [lexOne, hx, if_true, hsp, hA, hlow, hraw, Bool.false_eq_true, if_false]
+  simp only [lexOne, hx, if_true, hsp, (tagNameEnds_facts X).2.1, Bool.not_true, hA, hlow, hraw, Bool.false_eq_true, if_false]
 
 theorem lexN_wrapOpen (X : Str) (ys : List Token) (hX : ∀ k, X.length < k → lexN k X = some ys) :
     ∀ k, (wrapOpen ++ X).length < k → lexN k (wrapOpen ++ X) = some (.start wrapperName [] :: ys) := by
